@@ -307,8 +307,42 @@ def _far_point(ck: Checker, prog: Program, fp):
         raise AnalysisError(f"{fp.qualname}: ridge loop target")
     syms = [sp.Symbol(f"<{k}>", real=True) for k in ("p2", "v1", "v2")]
 
-    def appended(body, nm):
-        env = dict(zip(nm, syms))
+    def env_before(target_loop):
+        """Bindings in force at the loop: names bound exactly once by plain assignments in the enclosing blocks before it (aliases of
+        the tessellation's attributes, the generating point of the region, the centroid), written out by value."""
+        stores = {}
+        for x in ast.walk(fp.node):
+            if isinstance(x, ast.Name) and isinstance(x.ctx, (ast.Store, ast.Del)):
+                stores[x.id] = stores.get(x.id, 0) + 1
+        env = {}
+        chain = []
+        node = target_loop
+        while node is not None and node is not fp.node:
+            chain.append(node)
+            node = parent_of(node)
+        chain.reverse()
+        cur = fp.node
+        for child in chain:
+            for fld in ("body", "orelse"):
+                blk = getattr(cur, fld, None)
+                if isinstance(blk, list) and child in blk:
+                    for st in blk[:blk.index(child)]:
+                        if isinstance(st, ast.Assign) and len(st.targets) == 1 and isinstance(st.targets[0], ast.Name) and stores.get(st.targets[0].id) == 1:
+                            try:
+                                env[st.targets[0].id] = PathTable(prog, fp.module, env=dict(env), structured=True)._T(dict(env)).tr(st.value)
+                            except AnalysisError:
+                                pass
+            if isinstance(child, ast.For) and child is not target_loop:
+                tn = [n for n in ast.walk(child.target) if isinstance(n, ast.Name)]
+                if tn and isinstance(child.iter, ast.Call) and call_name(child.iter) == "enumerate":
+                    env[tn[0].id] = sp.Symbol("p1", real=True)      # the index of the generating point (named as in the reference)
+            cur = child
+        return env
+    ref_env = {"center": PathTable(prog, fp.module, structured=True)._T({}).tr(ast.parse("vor.points.mean(axis=0)", mode="eval").body)}
+
+    def appended(body, nm, base=None):
+        env = dict(base or {})
+        env.update(dict(zip(nm, syms)))
         out = []
         for l in PathTable(prog, fp.module, env=env, structured=True).leaves(body):
             if l.exit == "raise":
@@ -317,8 +351,8 @@ def _far_point(ck: Checker, prog: Program, fp):
             pts = [v.args[-1] for v in vals if any(getattr(getattr(a, "func", None), "__name__", "") in ("sign", "dot") for a in sp.preorder_traversal(v))]
             out.append((len(vals), pts))
         return out
-    want = appended(ast.parse(FAR_POINT_REFERENCE).body, ["p2", "v1", "v2"])
-    got = appended(lp.body, names)
+    want = appended(ast.parse(FAR_POINT_REFERENCE).body, ["p2", "v1", "v2"], ref_env)
+    got = appended(lp.body, names, env_before(lp))
     wp = [p for _n, pts in want for p in pts]
     gp = [p for _n, pts in got for p in pts]
     if not wp or not gp:
